@@ -136,6 +136,10 @@ func (cx *c16ctx) taint(fn *ssa.Function, seed []ssa.Value, depth int, cleanLen 
 		}
 		return true
 	}
+	ta.CleanValue = func(v ssa.Value) bool {
+		_, ok := xorFoldVerdict(v)
+		return ok
+	}
 	ta.Sanitizer = func(c ssa.CallInstruction) bool {
 		if c16base(c.Common().StaticCallee()) {
 			return true
@@ -153,9 +157,86 @@ func (cx *c16ctx) taint(fn *ssa.Function, seed []ssa.Value, depth int, cleanLen 
 			if c, ok := ins.(ssa.CallInstruction); ok && ta.Sanitizer(c) {
 				nsan++
 			}
+			if v, ok := ins.(ssa.Value); ok {
+				if _, isVerdict := xorFoldVerdict(v); isVerdict {
+					nsan++
+				}
+			}
 		}
 	}
 	return ta, nsan
+}
+
+// xorFoldVerdict: v is `z == 0` or `z != 0` where z is the OR of the two words of a local label d, and d
+// is the received label XORed with a wire's L0 or L1 (d := label; d.Xor(wire.L0); z := d.D0 | d.D1): the
+// comparison is the verdict "the label is (not) that wire label" — full-label equality spelled with
+// arithmetic.  idx is 0 or 1.
+func xorFoldVerdict(v ssa.Value) (idx int, ok bool) {
+	bo, isBO := v.(*ssa.BinOp)
+	if !isBO || (bo.Op != token.EQL && bo.Op != token.NEQ) {
+		return 0, false
+	}
+	var z ssa.Value
+	if k, isC := bo.Y.(*ssa.Const); isC && k.Value != nil && k.Value.String() == "0" {
+		z = bo.X
+	} else if k, isC := bo.X.(*ssa.Const); isC && k.Value != nil && k.Value.String() == "0" {
+		z = bo.Y
+	}
+	or, isOr := z.(*ssa.BinOp)
+	if !isOr || or.Op != token.OR {
+		return 0, false
+	}
+	word := func(x ssa.Value) (*ssa.Alloc, string) {
+		ld, ok := x.(*ssa.UnOp)
+		if !ok || ld.Op != token.MUL {
+			return nil, ""
+		}
+		fa, ok := ld.X.(*ssa.FieldAddr)
+		if !ok {
+			return nil, ""
+		}
+		al, ok := fa.X.(*ssa.Alloc)
+		if !ok || !labelTyped(al.Type()) {
+			return nil, ""
+		}
+		return al, structFieldName(fa.X.Type(), fa.Field)
+	}
+	a1, f1 := word(or.X)
+	a2, f2 := word(or.Y)
+	if a1 == nil || a1 != a2 || f1 == f2 || a1.Referrers() == nil {
+		return 0, false
+	}
+	// the local was XORed with a wire label
+	for _, r := range *a1.Referrers() {
+		c, isCall := r.(*ssa.Call)
+		if !isCall || c.Call.StaticCallee() == nil || c.Call.StaticCallee().Name() != "Xor" || len(c.Call.Args) != 2 || c.Call.Args[0] != ssa.Value(a1) {
+			continue
+		}
+		if !labelTyped(c.Call.Args[1].Type()) {
+			continue
+		}
+		switch t := c.Call.Args[1].(type) {
+		case *ssa.Field:
+			if st, ok := t.X.Type().Underlying().(*types.Struct); ok {
+				switch st.Field(t.Field).Name() {
+				case "L0":
+					return 0, true
+				case "L1":
+					return 1, true
+				}
+			}
+		case *ssa.UnOp:
+			if fa, ok := t.X.(*ssa.FieldAddr); ok && t.Op == token.MUL {
+				switch structFieldName(fa.X.Type(), fa.Field) {
+				case "L0":
+					return 0, true
+				case "L1":
+					return 1, true
+				}
+			}
+		}
+	}
+	return 0, false
 }
 
 // C16 decides that received data reaches the garbler's result only through full-label equality.
